@@ -15,7 +15,7 @@ EXPLANATION = (
     "the identity. (R3) PATH-PARAM - every Parameter::Path gets required = constant true (followed one call level), and "
     "path key and path parameters are computed from the same Uri, both walking UriSegment::Variable of uri.path. "
     "(R5) BASE-CLOSED - the base's paths are replaced wholesale (shared with C14) and the kept component maps are reported as able to hold dangling references; (R6) OPID - every path segment and the method contribute to the synthesised operationId, the segment label is injective (no case folding, literal/variable marked, empty segment labelled). Distinct variable names in a path and the YAML round trip are not decided.")
-EXPLANATION += ' Strengthened after the seeded rounds: the functions applied between a name and its sink agree on the emit side and the register side (R1); uri_params returns the list it pushed to, with no de-duplicating or selecting step (R3). Also (R3): uri_params is called on every path to a return of relation_path_item, and a literal URI segment is the verbatim text of its path element. R6 also requires every id returned by xfer_id to depend on the method. (R7) CONCAT-PATH (shared C02.R12); (R8) MARKER (shared C09.R1).'
+EXPLANATION += ' Strengthened after the seeded rounds: the functions applied between a name and its sink agree on the emit side and the register side (R1); uri_params returns the list it pushed to, with no de-duplicating or selecting step (R3). Also (R3): uri_params is called on every path to a return of relation_path_item, and a literal URI segment is the verbatim text of its path element. R6 also requires every id returned by xfer_id to depend on the method. (R7) CONCAT-PATH (shared C02.R12); (R8) MARKER (shared C09.R1). (R9) FINITE - numeric annotation values that reach the document are finite (one known finding).'
 TECHNIQUE = "static analysis: constructor census + MIR dominance/polarity agreement + constant provenance"
 
 
@@ -585,7 +585,25 @@ def r6_operation_ids(c, facts):
         c.bad(R, 'empty-segment-unlabelled', 'an empty path segment contributes no label: /a and /a/ get the same operationId')
 
 
+def r9_finite(c, facts):
+    """a bound that is not a finite number (`minimum: .nan`, `maximum: .inf` are legal YAML) has no JSON Schema meaning and
+    the emitted text does not parse back as an OpenAPI document: numeric annotation values are checked for finiteness on
+    the way in"""
+    R = c.rule('C03.R9', 'FINITE: numeric annotation values that reach the document are finite numbers')
+    gn = c.anchor(R, 'oal_compiler::annotation::Annotation::get_num')
+    names = set()
+    for g in [gn] + list(facts.closures_of(gn)):
+        if g.mir:
+            names |= {P.strip(callee_of(t)['def']).split('::')[-1] for b, t in g.calls() if callee_of(t)}
+    c.floor(R, 'calls in Annotation::get_num', len(names), 1)
+    if names & {'is_finite', 'is_nan', 'is_infinite', 'is_normal'}:
+        c.ok(R, {'get_num': 'rejects non-finite values'})
+    else:
+        c.bad(R, 'get_num:non-finite-values-pass', 'Annotation::get_num hands out whatever f64 the YAML value holds: `minimum: .nan` / `maximum: .inf` are emitted as they are, and the document no longer parses back (nor is it valid JSON Schema)')
+
+
 def run(c, facts):
+    c.run(r9_finite, facts)
     import c02 as _c02
     import c09 as _c09
     R7 = c.rule('C03.R7', 'CONCAT-PATH: a path built with concat is left path + right path, never empty, so every path key is a well-formed template (shared with C02.R12)')
